@@ -17,6 +17,9 @@
 package gv
 
 import (
+	"encoding/json"
+	"path/filepath"
+	"os"
 	"fmt"
 	"math/big"
 	"reflect"
@@ -168,6 +171,63 @@ func CoqTy(t reflect.Type) string {
 type Field struct {
 	SF   reflect.StructField
 	Plan ttlv.VerifField
+}
+
+// PinRange is the version range of one gated element in the PINNED table
+// (/verif/pinned/versions.json): what the specification says, independent of the annotations
+// of the tree under test.
+type PinRange struct {
+	Start, End []int // nil = open
+}
+
+// Pinned, when loaded (LoadPinned), decides which elements a generated message carries at a
+// version: generation must not follow the annotations of the tree under test, or a wrong
+// annotation would silently shape the inputs after itself.
+var Pinned map[string]PinRange
+
+// LoadPinned reads <verif>/pinned/versions.json.
+func LoadPinned(verif string) error {
+	b, err := os.ReadFile(filepath.Join(verif, "pinned", "versions.json"))
+	if err != nil {
+		return err
+	}
+	var f struct {
+		Fields []struct {
+			Struct string `json:"struct"`
+			Field  string `json:"field"`
+			Start  []int  `json:"start"`
+			End    []int  `json:"end"`
+		} `json:"fields"`
+	}
+	if err := json.Unmarshal(b, &f); err != nil {
+		return err
+	}
+	m := map[string]PinRange{}
+	for _, p := range f.Fields {
+		m[p.Struct+"."+p.Field] = PinRange{p.Start, p.End}
+	}
+	Pinned = m
+	return nil
+}
+
+// InRangeOf is InRange decided by the pinned table when it is loaded (an element the table
+// does not list exists at every version), by the library's annotation otherwise.
+func (f Field) InRangeOf(owner reflect.Type, major, minor int) bool {
+	if Pinned == nil {
+		return f.InRange(major, minor)
+	}
+	pr, ok := Pinned[owner.String()+"."+f.SF.Name]
+	if !ok {
+		return true
+	}
+	less := func(a []int, c, d int) bool { return a[0] < c || (a[0] == c && a[1] < d) }
+	if pr.Start != nil && less([]int{major, minor}, pr.Start[0], pr.Start[1]) {
+		return false
+	}
+	if pr.End != nil && less(pr.End, major, minor) {
+		return false
+	}
+	return true
 }
 
 // InRange reports whether the field's version range contains (major, minor); a field
